@@ -359,6 +359,9 @@ Out-of-range in the small direction (`0 < |x| < 2^-1074`) may be rejected instea
 /-- the magnitude pattern (sign bit removed) of a result -/
 def magBits (r : Res) : Nat := r.bits % 2 ^ 63
 
+/- **Closed in `Props/C09Closed.lean`** as `real_within_one_ulp_closed` / `overflow_reported_closed` for numerals of at
+most 99 999 000 units. With the bound `< 2^32` below the two statements are false (a mantissa of `10^8` or more ignored
+digits / leading fraction zeros against a nine-digit exponent; 32-bit wrap above `2^32 − 10^8` units). -/
 def real_within_one_ulp : Prop :=
   ∀ (x : Numeral), x.wf = true → x.leadingZero = false → x.units.length < 2 ^ 32 →
     ∀ r, strToNum x.units 0 x.units.length = some r → r.kind = .real → magBits r < infBits →
